@@ -10,7 +10,8 @@ RULE = ("cases: (a) random source = product of <=3 factors (|exp|<=3) of registe
         "composition of fundamental-dimension units; (b) synthetic unit systems with power-of-two sizes and "
         "redundant declarations, each in a fresh process.  distinct = multiset over both sides of (dimension, "
         "sign, |exponent|, derived-dimension base unit?, prefixed?); non-trivial = source is not target and the "
-        "conversion returned a value that the oracle checked")
+        "conversion returned a value that the oracle checked"
+        " One shard runs under non-default decimal contexts (7-40 digits, traps on/off) with mostly Decimal magnitudes; a finite magnitude converted to NaN is a violation; prefixes of the user's own in other bases; synthetic systems state a fifth of their equivalences from a prefixed form of the unit and re-declare leaves after queries.")
 ASSUMPTIONS = [
     "unit sizes are solved from the intercepted equals()/scale() declarations in exact rational arithmetic; "
     "where shipped declarations disagree the oracle is the interval spanned by neighbouring spanning trees",
